@@ -51,6 +51,28 @@ LOOPS = [
               "to segment.last()"),
 ]
 
+LOOPS += [
+    dict(id="dirsBack", file=AH + "outline.rs", func="compute_directions",
+         anchor=r"let\s+mut\s+point\s*=\s*points\[first_ix\]\s*;\s*while\s+prev_ix\s*!=\s*first_ix\s*\{",
+         while_cond="prev_ix != first_ix",
+         step="dirsBackStep", last="prev_ix", seg="first_ix", nested=[],
+         what="compute_directions: walk backward from contour.first() to the first non-near point "
+              "(`while prev_ix != first_ix`)"),
+    dict(id="segMain", file=AH + "topo/segments.rs", func="build_segments",
+         anchor=r"let\s+mut\s+passed\s*=\s*false\s*;\s*loop\s*\{",
+         step="segMainStep", last="point_ix", seg="last_ix", flag="passed", generic=True, nested=[],
+         what="build_segments: the main loop over the points of a contour; `passed` is set at the first visit of "
+              "`last_ix`, the loop breaks at the second (or returns when more than 1000 segments exist)"),
+    dict(id="weak", file=AH + "hint/outline.rs", func="align_weak_points",
+         anchor=r"let\s+mut\s+last_touched_ix\s*;\s*'outer\s*:\s*loop\s*\{",
+         step="weakStep", last="point_ix", seg="last_ix", generic=True, fuel="lastIx + 2",
+         nested=[dict(step="weakSkipStep", last="point_ix", seg="last_ix"),
+                 dict(step="weakFindStep", last="point_ix", seg="last_ix")],
+         what="align_weak_points: `'outer` loop over the touched points of a contour (indices relative to the contour "
+              "slice, last_ix = len - 1): nested `while` skipping touched neighbours, nested `loop` finding the next "
+              "touched point or leaving by `break 'outer`; `point_ix` only ever grows"),
+]
+
 CONTOUR_FNS = {
     "next": "pub fn next(self, index: usize) -> usize { if index >= self.last_ix as usize { self.first_ix as usize } else { index + 1 } }",
     "prev": "pub fn prev(self, index: usize) -> usize { if index <= self.first_ix as usize { self.last_ix as usize } else { index - 1 } }",
@@ -102,25 +124,38 @@ class Parser(B.Parser):
     def stmt(self):
         self.ws()
         ln = self.line()
-        if re.match(r"'\w+\s*:", self.s[self.i:]):
-            self.fail("labelled loop is outside the subset")
+        m = re.match(r"'(\w+)\s*:\s*(?=loop\b)", self.s[self.i:])
+        if m:
+            self.i += m.end()
+            st = self.stmt()
+            st["label"] = m.group(1)
+            return st
+        m = re.match(r"break\s+'(\w+)\s*;", self.s[self.i:])
+        if m:
+            self.i += m.end()
+            return {"k": "break", "line": ln, "label": m.group(1)}
         if self.kw("while"):
             if self.peek_kw("let"):
                 self.fail("`while let` is outside the subset")
             cond = self.scan("{;}")
             if not self.s.startswith("{", self.i):
                 self.fail("expected `{` after the while condition")
-            if re.search(r"\breturn\b|\bbreak\b|\bcontinue\b|\?", cond):
+            if re.search(r"\breturn\b|\bbreak\b|\bcontinue\b", cond):
                 self.fail("control transfer inside a condition is outside the subset")
             cid = self.nconds
             self.nconds += 1
+            pre = []
+            if "?" in cond:
+                pre = [{"k": "try", "line": ln, "id": self.nconds, "text": f"while {cond}",
+                        "inner": {"k": "let", "line": ln, "text": f"(`?` in the condition of `while {cond}`)", "call": True}}]
+                self.nconds += 1
             body = self.block()
             test = {"k": "if", "line": ln, "cond": cond, "id": cid, "then": [],
                     "else": [{"k": "break", "line": ln}], "while": True}
-            return {"k": "loop", "line": ln, "body": [test] + body, "while": True}
+            return {"k": "loop", "line": ln, "body": pre + [test] + body, "while": True}
         if self.kw("return"):
             e = self.scan_balanced()
-            return {"k": "break", "line": ln, "ret": True}
+            return {"k": "break", "line": ln, "ret": True, "label": "fn"}
         start = self.i
         self.saw_try = False
         try:
@@ -166,6 +201,15 @@ class LoopGen:
         self.loop_names = {}
         self.fresh = 0
         self.link_bound = False
+        self.flag = spec.get("flag")
+        self.generic = bool(spec.get("generic"))
+        self.depth = 0
+
+    def state(self, slots, src=None):
+        """state literal from the Lean locals (or from the fields of the record `src`)"""
+        a, b = camel(slots[0]), camel(slots[1])
+        core = f"⟨{a}, {b}, n, tick⟩"
+        return f"⟨{core}, {camel(self.flag)}⟩" if self.flag else core
 
     # -- expressions ------------------------------------------------------------------------------------
     def havoc(self, line, text):
@@ -240,16 +284,54 @@ class LoopGen:
             return None
         return " ".join(out).replace("( ", "(").replace(" )", ")").replace("¬ ", "¬")
 
+    def cond1(self, e, names, line):
+        e = e.strip()
+        if self.flag and e == self.flag:
+            return f"{camel(self.flag)} = true"
+        if self.flag and re.fullmatch(r"!\s*" + self.flag, e):
+            return f"{camel(self.flag)} = false"
+        return self.ctl(e, names, True, line, allow_havoc_arg=False)
+
     def cond(self, st, names):
-        c = self.ctl(st["cond"], names, True, st["line"], allow_havoc_arg=False)
+        c = self.cond1(st["cond"], names, st["line"])
         if c is not None:
             self.exact[st["id"]] = (st["line"], st["cond"], c)
             return c
+        # top-level conjunction: exact control conjuncts ∧ one oracle for the data conjuncts
+        parts, d, cur = [], 0, ""
+        e = st["cond"]
+        i = 0
+        while i < len(e):
+            if e[i] in "([":
+                d += 1
+            elif e[i] in ")]":
+                d -= 1
+            if d == 0 and e.startswith("&&", i):
+                parts.append(cur); cur = ""; i += 2
+                continue
+            if d == 0 and e.startswith("||", i):
+                parts = None
+                break
+            cur += e[i]
+            i += 1
+        if parts is not None and parts:
+            parts.append(cur)
+            tr = [self.cond1(x, names, st["line"]) for x in parts]
+            if any(t is not None for t in tr) and any(t is None for t in tr):
+                ex = [t for t in tr if t is not None]
+                lean = " ∧ ".join(f"({t})" for t in ex) + f" ∧ o {st['id']} tick"
+                self.opaque[st["id"]] = (st["line"], st["cond"] + "   [control conjuncts exact: " + ", ".join(ex) + "]")
+                return lean
         self.opaque[st["id"]] = (st["line"], st["cond"])
         return f"o {st['id']} tick"
 
     def assign_value(self, st, names):
         v = camel(st["var"])
+        if self.flag and st["var"] == self.flag:
+            if st["op"] == "" and st["rhs"].strip() in ("true", "false"):
+                self.exact_assign_lines.add(st["line"])
+                return st["rhs"].strip()
+            raise Unsupported(f"line {st['line']}: assignment to the flag `{self.flag}` is not a literal")
         rhs = self.ctl(st["rhs"], names, False, st["line"])
         if rhs is None or st["op"] not in ("", "+", "-"):
             return self.havoc(st["line"], st["text"])[1:-1]
@@ -321,7 +403,8 @@ class LoopGen:
     # -- CPS translation --------------------------------------------------------------------------------
     def seq(self, stmts, ind, names, slots):
         pad = "  " * ind
-        exit_state = f"⟨{camel(slots[0])}, {camel(slots[1])}, n, tick⟩"
+        exit_state = self.state(slots)
+        leave = ".exit" if self.depth > 1 else ".brk"      # `return` / `?` / labelled break out of a nested loop
         if not stmts:
             return [f"{pad}.cont {exit_state}"]
         st, rest = stmts[0], stmts[1:]
@@ -333,7 +416,7 @@ class LoopGen:
             if self.link and inner.get("text") == self.link["binding"]:
                 self.link_bound = True
             self.tries[st["id"]] = (st["line"], inner["text"])
-            return ([f"{pad}if o {st['id']} tick then", f"{pad}  .brk {exit_state}", f"{pad}else"] +
+            return ([f"{pad}if o {st['id']} tick then", f"{pad}  {leave} {exit_state}", f"{pad}else"] +
                     self.seq([inner] + rest, ind + 1, names, slots))
         cl = self.ctl_let(st, names)
         if cl is not None:
@@ -350,7 +433,9 @@ class LoopGen:
             self.drop(st, names)
             return self.seq(rest, ind, names, slots)
         if k == "break":
-            return [f"{pad}.brk {exit_state}"]
+            if st.get("label") and not self.generic and self.depth > 1:
+                raise Unsupported(f"line {st['line']}: exit out of a nested loop needs a `generic` loop declaration")
+            return [f"{pad}{leave if st.get('label') else '.brk'} {exit_state}"]
         if k == "continue":
             return [f"{pad}.cont {exit_state}"]
         if k == "assign":
@@ -373,14 +458,23 @@ class LoopGen:
             self.fresh += 1
             r = f"r{self.fresh}"
             lnk = " lnk" if self.link else ""
-            out = [f"{pad}match iter ({ns['step']} o h{lnk}) (n + 1) ⟨{camel(ns['last'])}, {camel(ns['seg'])}, n, tick⟩ with",
-                   f"{pad}| none => .stuck",
-                   f"{pad}| some {r} =>"]
+            fuel = self.spec.get("fuel", "n + 1")
+            rebind = []
             if ns["last"] in asg:
-                out.append(f"{pad}  let {camel(ns['last'])} := {r}.last")
+                rebind.append(f"{pad}  let {camel(ns['last'])} := {r}.last")
             if ns["seg"] in asg:
-                out.append(f"{pad}  let {camel(ns['seg'])} := {r}.segFirst")
-            out.append(f"{pad}  let tick := {r}.tick")
+                rebind.append(f"{pad}  let {camel(ns['seg'])} := {r}.segFirst")
+            rebind.append(f"{pad}  let tick := {r}.tick")
+            inner_state = self.state((ns["last"], ns["seg"]))
+            if self.generic:
+                out = [f"{pad}match iterG ({ns['step']} o h{lnk}) ({fuel}) {inner_state} with",
+                       f"{pad}| none => .stuck",
+                       f"{pad}| some (true, {r}) =>"] + rebind + [f"{pad}  {leave} {exit_state}",
+                       f"{pad}| some (false, {r}) =>"] + rebind
+            else:
+                out = [f"{pad}match iter ({ns['step']} o h{lnk}) ({fuel}) {inner_state} with",
+                       f"{pad}| none => .stuck",
+                       f"{pad}| some {r} =>"] + rebind
             return out + self.seq(rest, ind + 1, names, slots)
         if k == "if":
             c = self.cond(st, names)
@@ -391,14 +485,19 @@ class LoopGen:
     def loop(self, body, name, slots):
         saved = self.link_bound
         self.link_bound = False
-        lines = self.seq(body, 1, {slots[0], slots[1]}, slots)
+        self.depth += 1
+        names0 = {slots[0], slots[1]} | ({self.flag} if self.flag else set())
+        lines = self.seq(body, 1, names0, slots)
+        self.depth -= 1
         self.link_bound = saved
         lnk = " (lnk : Nat → Nat)" if self.link else ""
-        hdr = [f"def {name} (o : Nat → Nat → Bool) (h : Nat → Nat → Nat){lnk} (s : St) : Out :=",
+        sty = "StF" if self.flag else "St"
+        oty = f"OutG {sty}" if self.generic else "Out"
+        hdr = [f"def {name} (o : Nat → Nat → Bool) (h : Nat → Nat → Nat){lnk} (s : {sty}) : {oty} :=",
                "  let n := s.n",
                f"  let {camel(slots[1])} := s.segFirst",
                f"  let {camel(slots[0])} := s.last",
-               "  let tick := s.tick + 1"]
+               "  let tick := s.tick + 1"] + ([f"  let {camel(self.flag)} := s.flag"] if self.flag else [])
         self.defs.append((name, "\n".join(hdr + lines)))
 
 
@@ -427,8 +526,42 @@ def check_contour_fns(src):
             raise Unsupported(f"Contour::{name} in {AH}outline.rs no longer reads `{text}` (cnext / cprev model it)")
 
 
+RING_SITES = {
+    AH + "topo/mod.rs": [
+        "pub fn append_segment_to_edge(&mut self, segment_ix: usize, edge_ix: usize) { let edge = &mut self.edges[edge_ix]; "
+        "let first_ix = edge.first_ix; let last_ix = edge.last_ix; edge.last_ix = segment_ix as u16; "
+        "let segment = &mut self.segments[segment_ix]; segment.edge_next_ix = Some(first_ix); "
+        "self.segments[last_ix as usize].edge_next_ix = Some(segment_ix as u16); }"],
+    AH + "topo/edges.rs": [
+        "first_ix: segment_ix as u16, last_ix: segment_ix as u16, ..Default::default() }; "
+        "axis.insert_edge(edge, top_to_bottom_hinting); axis.segments[segment_ix].edge_next_ix = Some(segment_ix as u16);",
+        # the two walks that Model/EdgeRing.lean `walk` transcribes
+        "loop { let segment = &mut segments[ix]; segment.edge_ix = Some(edge_ix as u16); if ix == last_ix { break; } "
+        "ix = segment .edge_next_ix .map(|ix| ix as usize) .unwrap_or(last_ix); }",
+        "if segment_ix == last_segment_ix { break; } segment_ix = next_segment_ix .map(|ix| ix as usize) "
+        ".unwrap_or(last_segment_ix); }",
+        "let next_segment_ix = segment.edge_next_ix;",
+    ],
+}
+
+
+def check_ring_sites(read):
+    """Model/EdgeRing.lean (hand-written) transcribes these code sites; they are the only writers of edge_next_ix"""
+    writes = 0
+    for rel in read("*"):
+        src = B.strip_comments(read(rel))
+        flat = " ".join(src.split())
+        for text in RING_SITES.get(rel, []):
+            if text not in flat:
+                raise Unsupported(f"{rel}: ring code site no longer reads `{text[:90]}…` (Model/EdgeRing.lean transcribes it)")
+        writes += len(re.findall(r"edge_next_ix\s*=(?!=)", src))
+    if writes != 3:
+        raise Unsupported(f"expected exactly 3 assignments to edge_next_ix in the autohinter, found {writes}")
+
+
 def generate(read):
     check_contour_fns(B.strip_comments(read(AH + "outline.rs")))
+    check_ring_sites(read)
     L_defs, header, stats = [], [], []
     for spec in LOOPS:
         src = B.strip_comments(read(spec["file"]))
@@ -436,6 +569,10 @@ def generate(read):
         line0 = src.count("\n", 0, b) + 1
         p = Parser(src[b:e + 1], line0)
         body = p.block()
+        if spec.get("while_cond"):
+            body = [{"k": "if", "line": line0, "cond": spec["while_cond"], "id": p.nconds, "then": [],
+                     "else": [{"k": "break", "line": line0}], "while": True}] + body
+            p.nconds += 1
         g = LoopGen(spec)
         g.loop(body, spec["step"], (spec["last"], spec["seg"]))
         if g.nested_specs:
@@ -496,6 +633,10 @@ def main():
     over = dict(x.split("=", 1) for x in a.override)
 
     def read(rel):
+        if rel == "*":      # every Rust file of the autohinter
+            root = os.path.join(a.repo, AH)
+            return sorted(os.path.relpath(os.path.join(d, f), a.repo) for d, _, fs in os.walk(root) for f in fs
+                          if f.endswith(".rs"))
         return open(over.get(rel, os.path.join(a.repo, rel))).read()
 
     unparsed, lean, stats, changed = [], None, [], False
